@@ -563,6 +563,33 @@ dns_namedec(char *outdata, int outdatalen, char *buf, int buflen)
 }
 
 static int
+from_raw_server(struct sockaddr_storage *from, socklen_t fromlen)
+/* Raw frames carry no query id: apart from our user id, all that tells the
+   server's frames from anybody else's is where they come from. iodined checks
+   our address in the same way (see check_user_and_ip() there). */
+{
+	if (from->ss_family != raw_serv.ss_family)
+		return 0;
+
+	if (from->ss_family == AF_INET && fromlen >= sizeof(struct sockaddr_in)) {
+		struct sockaddr_in *expected = (struct sockaddr_in *) &raw_serv;
+		struct sockaddr_in *received = (struct sockaddr_in *) from;
+
+		return memcmp(&expected->sin_addr, &received->sin_addr,
+			      sizeof(struct in_addr)) == 0;
+	}
+	if (from->ss_family == AF_INET6 && fromlen >= sizeof(struct sockaddr_in6)) {
+		struct sockaddr_in6 *expected = (struct sockaddr_in6 *) &raw_serv;
+		struct sockaddr_in6 *received = (struct sockaddr_in6 *) from;
+
+		return memcmp(&expected->sin6_addr, &received->sin6_addr,
+			      sizeof(struct in6_addr)) == 0;
+	}
+	/* Unknown address family */
+	return 0;
+}
+
+static int
 read_dns_withq(int dns_fd, int tun_fd, char *buf, int buflen, struct query *q)
 /* FIXME: tun_fd needed for raw handling */
 /* Returns -1 on receive error or decode error, including DNS error replies.
@@ -654,6 +681,8 @@ read_dns_withq(int dns_fd, int tun_fd, char *buf, int buflen, struct query *q)
 		if (memcmp(data, raw_header, RAW_HDR_IDENT_LEN)) return 0;
 		/* should be my user id */
 		if (RAW_HDR_GET_USR(data) != userid) return 0;
+		/* should come from the server we logged in to */
+		if (!from_raw_server(&from, addrlen)) return 0;
 
 		if (RAW_HDR_GET_CMD(data) == RAW_HDR_CMD_DATA ||
 		    RAW_HDR_GET_CMD(data) == RAW_HDR_CMD_PING)
